@@ -10,6 +10,14 @@
    for every n_frac for which Python can compute 2.0**n_frac at all (n_frac <= 1023, above which the
    code raises OverflowError -- C16_scale_overflow_error -- down to scales that underflow to 0.0).
 
+   SCOPE OF THE ARRAY THEOREMS.  The model of the array converters is PER ELEMENT OF A float64 ARRAY: the
+   array result is taken to be the map of the element function over the elements (numpy's elementwise
+   semantics, trusted).  Harness-only, not covered by a theorem: arrays of any shape / layout / read-only /
+   broadcast, result dtype and aliasing, float32 / float16 / longdouble inputs (numpy keeps their own
+   arithmetic), ambient np.errstate, numpy scalars as values / words / format parameters, pickled or copied
+   converter objects.  range_min / range_max / saturate / fp_spec / in_domain live in Spec/FixFloat.v;
+   C16_spec_range_is_model_range and C16_in_domain_real relate them to the model and to real numbers.
+
    Every theorem below depends, through Flocq's real-number specifications, on the axioms of Coq's
    classical real numbers only (ClassicalDedekindReals.sig_forall_dec, sig_not_dec,
    FunctionalExtensionality.functional_extensionality_dep, Classical_Prop.classic). *)
@@ -33,7 +41,7 @@ Theorem C16_fp_in_range :
   forall signed n_bits n_frac (x : b64) v,
     1 <= n_bits -> in_domain n_frac x ->
     float_to_fp signed n_bits n_frac x = Ok v ->
-    fmt_min signed n_bits <= v <= fmt_max signed n_bits.
+    range_min signed n_bits <= v <= range_max signed n_bits.
 Proof. exact fp_in_range. Qed.
 
 (* monotone *)
@@ -49,7 +57,7 @@ Proof. exact fp_monotone. Qed.
 Theorem C16_fp_truncates :
   forall signed n_bits n_frac (x : b64),
     1 <= n_bits -> in_domain n_frac x ->
-    fmt_min signed n_bits <= Ztrunc (B2R x * bpow radix2 n_frac) <= fmt_max signed n_bits ->
+    range_min signed n_bits <= Ztrunc (B2R x * bpow radix2 n_frac) <= range_max signed n_bits ->
     float_to_fp signed n_bits n_frac x = Ok (Ztrunc (B2R x * bpow radix2 n_frac)).
 Proof. exact fp_truncates. Qed.
 
@@ -57,17 +65,17 @@ Proof. exact fp_truncates. Qed.
 Theorem C16_fp_saturates :
   forall signed n_bits n_frac (x : b64),
     1 <= n_bits -> in_domain n_frac x ->
-    ((IZR (fmt_max signed n_bits) <= B2R x * bpow radix2 n_frac)%R ->
-       float_to_fp signed n_bits n_frac x = Ok (fmt_max signed n_bits)) /\
-    ((B2R x * bpow radix2 n_frac <= IZR (fmt_min signed n_bits))%R ->
-       float_to_fp signed n_bits n_frac x = Ok (fmt_min signed n_bits)).
+    ((IZR (range_max signed n_bits) <= B2R x * bpow radix2 n_frac)%R ->
+       float_to_fp signed n_bits n_frac x = Ok (range_max signed n_bits)) /\
+    ((B2R x * bpow radix2 n_frac <= IZR (range_min signed n_bits))%R ->
+       float_to_fp signed n_bits n_frac x = Ok (range_min signed n_bits)).
 Proof. exact fp_saturates. Qed.
 
 (* inside the range: less than one least-significant step (2^-n_frac) from the input *)
 Theorem C16_fp_within_one_lsb :
   forall signed n_bits n_frac (x : b64),
     1 <= n_bits -> in_domain n_frac x ->
-    (IZR (fmt_min signed n_bits) <= B2R x * bpow radix2 n_frac <= IZR (fmt_max signed n_bits))%R ->
+    (IZR (range_min signed n_bits) <= B2R x * bpow radix2 n_frac <= IZR (range_max signed n_bits))%R ->
     exists v, float_to_fp signed n_bits n_frac x = Ok v /\
               (Rabs (IZR v * bpow radix2 (- n_frac) - B2R x) < bpow radix2 (- n_frac))%R.
 Proof. exact fp_within_one_lsb. Qed.
@@ -230,6 +238,30 @@ Theorem C16_source_sentences :
      src_fix_to_float signed n_bits n_frac w = src_fp_to_float n_frac (word_value signed n_bits w)).
 Proof. exact source_sentences. Qed.
 
+(* ---- the Spec's vocabulary ---------------------------------------------------------------------------- *)
+
+(* the Spec's range / saturation are the functions the model computes with *)
+Theorem C16_spec_range_is_model_range :
+  (forall s n, range_min s n = fmt_min s n) /\ (forall s n, range_max s n = fmt_max s n) /\
+  (forall lo hi i, saturate lo hi i = clamp lo hi i).
+Proof. exact spec_range_is_model_range. Qed.
+
+(* in_domain is phrased with the model's 2.0**n_frac and product; on real numbers it says: x finite,
+   n_frac <= 1023 (Python can compute the scale) and, when the scale is a non-zero double, the exactly scaled
+   value ROUNDS to a finite double (the threshold is 2^1024 - 2^970, not 2^1024) *)
+Theorem C16_in_domain_real :
+  forall n_frac (x : b64),
+    in_domain n_frac x <->
+    is_finite x = true /\ n_frac <= 1023 /\
+    (-1074 <= n_frac ->
+     (Rabs (round radix2 (FLT_exp (-1074) 53) ZnearestE (B2R x * bpow radix2 n_frac)) < bpow radix2 1024)%R).
+Proof. exact in_domain_real. Qed.
+
+Theorem C16_in_domain_scaled_bound :
+  forall n_frac (x : b64), in_domain n_frac x -> -1074 <= n_frac ->
+    (Rabs (B2R x * bpow radix2 n_frac) < bpow radix2 1024)%R.
+Proof. exact in_domain_scaled_bound. Qed.
+
 (* ---- hypotheses are satisfiable ------------------------------------------------------------------ *)
 Example C16_domain_inhabited :
   in_domain 4 (b64_of_bits 0x3fe0000000000000) /\                     (* 0.5, S3.4: the docstring's example *)
@@ -244,6 +276,19 @@ Example C16_roundtrip_hypotheses_inhabited :
   representable true 64 (2 ^ 60) /\ generic_format radix2 (FLT_exp (-1074) 53) (IZR (2 ^ 60)) /\
   ~ (Z.abs (2 ^ 60) < 2 ^ 53) /\ roundtrip true 64 0 (2 ^ 60) = Ok (2 ^ 60).
 Proof. exact roundtrip_hypotheses_inhabited. Qed.
+
+(* the repaired array converter on the witness of C16_numpy_agrees_orig_refuted, and one ulp either side of
+   2^63: the largest double below it converts exactly, 2^63 and its successor saturate (scalar and array) *)
+Example C16_numpy_repaired_examples :
+  np_float_to_fix true 64 0 x_1e30 = Ok (2 ^ 63 - 1) /\
+  np_float_to_fix false 64 0 x_1e30 = Ok (2 ^ 64 - 1) /\
+  float_to_fp true 64 0 (b64_of_bits 0x43dfffffffffffff) = Ok (2 ^ 63 - 1024) /\
+  np_float_to_fix true 64 0 (b64_of_bits 0x43dfffffffffffff) = Ok (2 ^ 63 - 1024) /\
+  float_to_fp true 64 0 (b64_of_bits 0x43e0000000000000) = Ok (2 ^ 63 - 1) /\
+  np_float_to_fix true 64 0 (b64_of_bits 0x43e0000000000000) = Ok (2 ^ 63 - 1) /\
+  float_to_fp true 64 0 (b64_of_bits 0x43e0000000000001) = Ok (2 ^ 63 - 1) /\
+  np_float_to_fix true 64 0 (b64_of_bits 0x43e0000000000001) = Ok (2 ^ 63 - 1).
+Proof. exact numpy_repaired_examples. Qed.
 
 Example C16_valid_format_inhabited :
   valid_format true 64 0 /\ valid_format false 64 64 /\ valid_format true 8 4.
